@@ -14,7 +14,7 @@ cd "$W" || exit 2
 git checkout -q -- . 2>/dev/null
 run_demo() {
   case "$DEMO" in
-    sh:*) sh "${DEMO#sh:}" "$W" >"$W/out/demo$K.log" 2>&1; return $? ;;
+    sh:*) bash "${DEMO#sh:}" "$W" >"$W/out/demo$K.log" 2>&1; return $? ;;
     gotest:*)
       IFS=: read -r _ f d pat <<<"$DEMO"
       cp "$f" "$d/" || return 99
